@@ -398,9 +398,12 @@ type LockSpec struct {
 type FieldSpec struct {
 	Key  string // client.RpcMultiplexer.handlers
 	Labels []string
-	Disc string // guarded_by <lockfield> | atomic | init_only | single_writer ...
+	Disc string // guarded_by <lockpath> | atomic | init_only | unshared | used_only_in <funcs>
 	Arg  string
 	Args []string
+	Lock     string   // guarded_by: lock path relative to the struct; init_only contents=<lock>: lock guarding a map's contents
+	Inits    []string // by=<func>: functions allowed to write an init_only field (run before the object is shared)
+	Readers  []string // readers=<func>: functions that may read a guarded field without the lock (the single writer)
 }
 
 type ChanSpec struct {
@@ -427,6 +430,7 @@ type Specs struct {
 	Fields    map[string]*FieldSpec
 	Chans     map[string]*ChanSpec
 	ObjInvs   map[string][]*Clause
+	FieldDefaults map[string]*FieldSpec
 	Classes   map[string]*ChanClass
 	ClassList []*ChanClass
 	Lemmas    []*LemmaSpec
@@ -437,7 +441,7 @@ type Specs struct {
 var labelRe = regexp.MustCompile(`^([a-z_-]+)(?:\[([^\]]*)\])?\s*(.*)$`)
 
 func readSpecs(dir string) (*Specs, error) {
-	sp := &Specs{Funcs: map[string]*FuncSpec{}, Locks: map[string]*LockSpec{}, Fields: map[string]*FieldSpec{}, Chans: map[string]*ChanSpec{}, Classes: map[string]*ChanClass{}, ObjInvs: map[string][]*Clause{}}
+	sp := &Specs{Funcs: map[string]*FuncSpec{}, Locks: map[string]*LockSpec{}, Fields: map[string]*FieldSpec{}, Chans: map[string]*ChanSpec{}, Classes: map[string]*ChanClass{}, ObjInvs: map[string][]*Clause{}, FieldDefaults: map[string]*FieldSpec{}}
 	var files []string
 	filepath.Walk(dir, func(path string, info os.FileInfo, err error) error {
 		if err != nil {
@@ -697,11 +701,33 @@ func (sp *Specs) readFile(path string) error {
 			if len(f) < 2 {
 				return fail("bad field")
 			}
-			fs := &FieldSpec{Key: f[0], Disc: f[1], Args: f[2:], Labels: labels}
-			if len(f) > 2 {
-				fs.Arg = f[2]
+			fs := &FieldSpec{Key: f[0], Disc: f[1], Labels: labels}
+			for _, a := range f[2:] {
+				switch {
+				case strings.HasPrefix(a, "contents="):
+					fs.Lock = strings.TrimPrefix(a, "contents=")
+				case strings.HasPrefix(a, "by="):
+					fs.Inits = append(fs.Inits, strings.Split(strings.TrimPrefix(a, "by="), ",")...)
+				case strings.HasPrefix(a, "readers="):
+					fs.Readers = append(fs.Readers, strings.Split(strings.TrimPrefix(a, "readers="), ",")...)
+				default:
+					fs.Args = append(fs.Args, a)
+				}
+			}
+			if len(fs.Args) > 0 {
+				fs.Arg = fs.Args[0]
+			}
+			if fs.Disc == "guarded_by" {
+				fs.Lock = fs.Arg
 			}
 			sp.Fields[f[0]] = fs
+		case "fielddefault":
+			// fielddefault <Type> <discipline>: every field of the struct without its own declaration
+			f := strings.Fields(rest)
+			if len(f) < 2 {
+				return fail("bad fielddefault")
+			}
+			sp.FieldDefaults[f[0]] = &FieldSpec{Key: f[0] + ".*", Disc: f[1], Labels: labels}
 		case "chan":
 			// chan <origin> never_closed | owner_closed <func> | close_guarded_by <lock> [msg: expr]
 			head := rest
